@@ -277,6 +277,11 @@ def fam_growth(tier, seed, tag, nruns, conc=False, faults=False):
                     used = set(best[:need])
                     order = [c for c in order[:k]] + [c for c in order[k:] if c not in used]
                     grp = [{"op": "flush"}, rng.choice([{"op": "flush"}, {"op": "discard", "gb": order[rng.randrange(k)] * bpc, "n": bpc}]), big]
+                    if mode == 2 or rng.random() < 0.3:
+                        # a second writer behind another L2 slice that needs new clusters at the same time
+                        far = [c for c in order[k:] if c not in used and abs(c - best[0]) > 70]
+                        if far:
+                            grp.append({"op": "write", "gb": far[-1] * bpc, "n": bpc * rng.choice([1, 2])})
                     rng.shuffle(grp)
                     steps.append({"op": "par", "ops": grp})
                     steps.append({"op": "flush"})
